@@ -23,6 +23,7 @@ CLAIMED = {
  "C08": func("history monitor: generated operation sequences (<= 64 steps over six registers: new/zero/one/add/sub/neg/double/mul/square/div_by_2 in every API form incl. multiplier objects, select/swap, Montgomery round trip) are replayed in lock-step on MontyForm<L>, BoxedMontyForm and ConstMontyForm (21-entry compile-time modulus bank) and on a BigUint model of Z/mZ; after every step every register of every representation must be canonical (< m), retrieve to the model value, equal x*R mod m and be limb-identical across representations; a parameter monitor compares all constructors (new, new_vartime, macro constants, from_const_params) with the definitions R, R^2, R^3 mod m, -m^-1 mod 2^64 and the clamped leading-zero count.", "DESIGN.md §4 C08", "history monitor against a sequential BigUint model of Z/mZ (every prefix checked) + parameter-definition monitor"),
  "C09": func("pow / pow_bounded_exp / Pow / PowBoundedExp / MultiExponentiate(BoundedExp) (arrays and slices) / lincomb_vartime in the runtime, boxed and compile-time (bank) implementations against BigUint modpow, products of powers and sums of products; bit bound k exhaustive for 1-2 limb exponents and window/limb-boundary values otherwise, exponents with bits just above k, 1..=40 lincomb terms over moduli with 0..=70 leading zero bits; results must be canonical and the three implementations limb-identical.", "DESIGN.md §4 C09"),
  "C10": func("inv_mod / inv_odd_mod / InvMod / inv_mod2k(_vartime, k exhaustive at <= 4 limbs) / Inverter::invert(_vartime) / SafeGcdInverter with adjuster / Int inversion / Montgomery inv, invert(_vartime) and precomputed inverters in runtime, boxed and compile-time (bank) forms, and gcd / gcd_vartime on Uint, Odd<Uint>, Int, BoxedUint: some exactly when gcd(a,m)=1, a*x = 1 (mod m), x < m, ct == vartime, precomputed == one-shot, const == runtime == boxed; moduli primes, composites, 2^k, s*2^k, 1, 2^BITS-1 and operands built to share odd factors / only the factor 2 / many trailing zeros.", "DESIGN.md §4 C10"),
+ "C13": func("checked/overflowing/wrapping add, sub, neg, split/widening/checked multiplication (Int x Int, Int x Uint, right form; equal and mixed widths), squares, new_from_abs_sign / abs_sign / abs, sign and MIN/MAX predicates, resize between all width pairs, from_i8..from_i128 and operators / Checked / Wrapping wrappers against BigInt two's-complement semantics; operands at MIN, MIN+1, -1, 0, 1, MAX, products constructed to land on +-2^(BITS-1), negative zero.", "DESIGN.md §4 C13"),
 }
 
 checks = []
